@@ -74,7 +74,7 @@ Invoked(P, op, v) ==
   CASE op \in {"and_then", "filter"} -> v.ok
     [] op = "map"                    -> IF IsAsync(P) THEN TRUE ELSE v.ok
     [] op \in {"or_else", "map_err"} -> ~v.ok
-    [] op \in {"then", "dot", "inspect"} -> TRUE
+    [] op \in {"then", "dot", "inspect", "job"} -> TRUE
     [] OTHER -> FALSE
 
 Fresh(b, id) == [ok |-> TRUE, b |-> b, n |-> 0, last |-> id]
@@ -281,10 +281,22 @@ CallerPanics(s) == s.pp # "" /\ s.pb = -1
 Running(s) == s.ph = "step" /\ s.capq = <<>> /\ s.consq = <<>> /\ ~CallerPanics(s)
               /\ (JoinerMode(s.prog, s.k) = "before" => s.jn = "done")
 
+\* `lazy_branches(false)` in a thread-spawning sync macro: the branch expression is evaluated on the calling thread,
+\* branch after branch, and must yield the job the thread then runs.  In the programs of the corpus the job is the
+\* last action of the step (operator "job": `-> |r| move || f(r)`); everything before it runs on the caller.
+EagerSpawn(P) == ~IsAsync(P) /\ IsSpawn(P) /\ P.opts.lazy = "false"
+AtJob(s, c) == /\ c \notin s.ended
+               /\ s.pc[c].i \in 1 .. Len(Items(s.prog, c, s.k))
+               /\ Items(s.prog, c, s.k)[s.pc[c].i].op = "job"
+JobIds(P) == UNION {UNION {{Items(P, b, k)[j].id : j \in {x \in 1 .. Len(Items(P, b, k)) : Items(P, b, k)[x].op = "job"}}
+                           : k \in 0 .. (Depth(P, b) - 1)} : b \in BrSet(P)}
+
 \* may branch b move now?
 MayRun(s, b) ==
   LET P == s.prog IN
   /\ b \in Active(P, s.k) /\ b \notin s.ended /\ b # s.pb
+  /\ (EagerSpawn(P) /\ Cardinality(Active(P, s.k)) > 1 /\ ~AtJob(s, b))
+        => \A c \in Active(P, s.k) : c < b => (c \in s.ended \/ AtJob(s, c))
   /\ \/ Running(s) /\ ~s.panicked /\ ~s.fresh /\ (IsAsync(P) /\ ~IsTasks(P) => s.inpoll)
         /\ (IsTasks(P) /\ Cardinality(Active(P, s.k)) < 2 => s.inpoll)
      \/ s.zombie /\ s.capq = <<>> /\ s.consq = <<>>
